@@ -14,15 +14,16 @@ from .vals import (S, Ref, Obj, PySeq, Fixed, View, Exc, Raised, Fn, ModuleV, Cl
 
 
 class HObj:
-    """Heap cell for a local mutable object: kind in {'list','map','rec'}."""
-    __slots__ = ('kind', 'data', 'cls')
+    """Heap cell for a local mutable object: kind in {'list','map','rec'}.  alias_of: the state path this value is a
+    live view of (a write through it cannot be modelled by value: outside the subset)."""
+    __slots__ = ('kind', 'data', 'cls', 'alias_of')
 
-    def __init__(self, kind, data, cls=None):
-        self.kind, self.data, self.cls = kind, data, cls
+    def __init__(self, kind, data, cls=None, alias_of=None):
+        self.kind, self.data, self.cls, self.alias_of = kind, data, cls, alias_of
 
     def copy(self):
         d = dict(self.data) if self.kind == 'rec' else self.data
-        return HObj(self.kind, d, self.cls)
+        return HObj(self.kind, d, self.cls, self.alias_of)
 
 
 class HRef(Value):
@@ -79,9 +80,9 @@ class Ctx:
         Ctx._next[0] += 1
         return Ctx._next[0]
 
-    def alloc(self, kind, data, cls=None):
+    def alloc(self, kind, data, cls=None, alias_of=None):
         i = self.new_id()
-        self.heap[i] = HObj(kind, data, cls)
+        self.heap[i] = HObj(kind, data, cls, alias_of)
         return HRef(i)
 
     def lookup(self, name):
@@ -1520,6 +1521,8 @@ class Engine:
                 return
         if isinstance(cont, HRef):
             h = ctx.heap[cont.id]
+            if h.alias_of is not None:
+                raise Unsupported('item assignment through a live view of %r (aliasing write)' % (h.alias_of,))
             if h.kind == 'map':
                 k = self.to_v(ctx, key)
                 if isinstance(h.data, dict):
@@ -1590,6 +1593,8 @@ class Engine:
                 return
         if isinstance(cont, HRef):
             h = ctx.heap[cont.id]
+            if h.alias_of is not None:
+                raise Unsupported('del through a live view of %r (aliasing write)' % (h.alias_of,))
             if h.kind == 'map' and isinstance(h.data, SV):
                 k = self.to_v(ctx, key)
                 for c, pres in self.branch(ctx, h.data.present(k)):
